@@ -55,7 +55,50 @@ def stream_case(rng):
     return {"steps": steps, "env": gen.ENV}
 
 
+def dotted_key_case(rng):
+    """a map holding BOTH a nested path and a key whose text is that path joined with dots (or only one of the two):
+    a reference walks segments, a dotted key is reachable only as one list element"""
+    segs = rng.sample(["db", "internal", "a", "b", "example", "com", "v1"], rng.randint(2, 3))
+    nested, cur = {}, None
+    leaf = rng.choice([{"n": 1}, [1, 2], {"deep": {"x": "nested"}}])
+    t = leaf
+    for sgm in reversed(segs):
+        t = {sgm: t}
+    holder = dict(t)
+    shape = rng.choice(["both", "both", "dotted-only", "nested-only", "partial"])
+    if shape == "dotted-only":
+        holder = {}
+    if shape != "nested-only":
+        holder[".".join(segs)] = rng.choice([{"d": "dotted"}, ["dotted"], {"n": 2}])
+    if shape == "partial":
+        # the dotted key spells only the TAIL of the path
+        holder = dict(t)
+        holder[segs[0]] = dict(holder[segs[0]], **{".".join(segs[1:]): {"d": "dotted-tail"}})
+    doc = {"hosts": holder, "other": 1}
+    kind = rng.choice(["$merge", "$replace"])
+    form = rng.choice(["str", "list", "list-one", "directive-str", "cross"])
+    path = ["hosts"] + segs
+    if form == "str":
+        ref = ".".join(path)
+    elif form == "list":
+        ref = path
+    elif form == "list-one":
+        ref = ["hosts", ".".join(segs)]
+    elif form == "directive-str":
+        doc["ref"] = rng.choice([kind + ":" + ".".join(path), {"x": kind + ":" + ".".join(path), "local": 1}])
+        return chain_case([doc], env=gen.ENV, tail=("docs", "outdocs"))
+    else:
+        doc["kind"] = "T"
+        other = {"kind": "H", "ref": {kind: rng.choice([[{"kind": "T"}] + path, {"$match": {"kind": "T"}, "$path": rng.choice([".".join(path), path])}])}}
+        steps = [{"merge": {"id": f"D{i}", "parents": [], "data": d}} for i, d in enumerate([doc, other])] + [{"docs": True}, {"outdocs": True}]
+        return {"steps": steps, "env": gen.ENV}
+    doc["ref"] = {kind: ref} if rng.random() < 0.5 else {kind: ref, "local": 1}
+    return chain_case([doc], env=gen.ENV, tail=("docs", "outdocs"))
+
+
 def gen_case(rng):
+    if rng.random() < 0.08:
+        return dotted_key_case(rng)
     if rng.random() < 0.3:
         return stream_case(rng)
     doc = gen.eval_doc(rng, W, depth=rng.randint(2, 4), nfeat=(1, 3))
